@@ -37,6 +37,25 @@ fn collapse(ctx: &Ctx, tcs: &[String], cfg: &Cfg) {
     }
 }
 
+pub fn case_partner_lists() -> Vec<Vec<String>> {
+    let mut pairs: Vec<Vec<String>> = vec![];
+    for c in (0..=0x10FFFFu32).filter_map(char::from_u32) {
+        let lo: Vec<char> = c.to_lowercase().collect();
+        let up: Vec<char> = c.to_uppercase().collect();
+        for p in [lo, up] {
+            if p.len() == 1 && p[0] != c {
+                pairs.push(vec![p[0].to_string(), c.to_string()]);
+                pairs.push(vec![c.to_string(), p[0].to_string()]);
+                pairs.push(vec![format!("{}{}", p[0], c)]);
+                pairs.push(vec![format!("{}{}", c, p[0])]);
+                pairs.push(vec![format!("{}x", p[0]), format!("{}y", c)]);
+                pairs.push(vec![format!("ab{}c", p[0]), "xyz".to_string(), format!("AB{}C", c)]);
+            }
+        }
+    }
+    pairs
+}
+
 pub fn run(ctx: &Ctx) {
     let thorough = ctx.run.is_thorough();
     *ctx.run.rule.lock().unwrap() = "(a) every scalar of the slice (quick: every scalar with a non-trivial simple fold or std case mapping +-1, all table boundaries; thorough: all 1,112,064) as a one-character test case with i; (b) subsets of A_case^<=k (dotted/dotless i, sharp s, sigmas, Kelvin, Cherokee, titlecase digraph) x {i}+bases; (c) collapse of ASCII case variants; oracle = spec HIR with ClassUnicode::case_fold_simple applied to every original code point; product explored completely per case; non-trivial: every case here has the i flag acting on it; distinct by hash".into();
@@ -51,20 +70,7 @@ pub fn run(ctx: &Ctx) {
     // (a') every cased scalar together with its std lower/upper-case partner, in both list orders and inside
     // one string in both orders: the partner is what lower-casing maps to, so any per-call state, cache or
     // shortcut keyed on one of them meets the other
-    let mut pairs: Vec<Vec<String>> = vec![];
-    for c in (0..=0x10FFFFu32).filter_map(char::from_u32) {
-        let lo: Vec<char> = c.to_lowercase().collect();
-        let up: Vec<char> = c.to_uppercase().collect();
-        for p in [lo, up] {
-            if p.len() == 1 && p[0] != c {
-                pairs.push(vec![p[0].to_string(), c.to_string()]);
-                pairs.push(vec![c.to_string(), p[0].to_string()]);
-                pairs.push(vec![format!("{}{}", p[0], c)]);
-                pairs.push(vec![format!("{}{}", c, p[0])]);
-                pairs.push(vec![format!("{}x", p[0]), format!("{}y", c)]);
-            }
-        }
-    }
+    let pairs = case_partner_lists();
     par_for(pairs.len(), |i| {
         ctx.run.mark_nontrivial(hash_case(&pairs[i], &cfg_i));
         check_case(ctx, &pairs[i], &cfg_i);
